@@ -505,8 +505,10 @@ Definition polled_names (i : inst) : list str :=
   if i_enablepoll i then map p_name (filter (fun p => negb (p_iscmd p) && p_polled p) (i_params i)) else [].
 Definition has_thread (i : inst) : bool :=
   i_enablepoll i || match i_write i with [] => false | _ => true end.
+(* a module with export = False is not initialised by _processCfg (only exported modules are, through
+   get_descriptive_data): initModule never registers it for a poll thread *)
 Definition startup (i : inst) : list ev :=
-  if has_thread i then flat_map (write_one (i_params i)) (i_write i) ++ [EvInit] ++ map EvRead (polled_names i)
+  if mexport (i_mvals i) && has_thread i then flat_map (write_one (i_params i)) (i_write i) ++ [EvInit] ++ map EvRead (polled_names i)
   else [].
 
 (* ------------------------------------------------------------------ config DSL: Mod(name, cls, description, kwds) *)
